@@ -1,12 +1,13 @@
 (* ChunkedProofs.v — proofs about ChunkedModel.v (TeChunkedParser and the callers' loop).
    Layout: (1) Tokenizer primitives under extension of the buffer; (2) quoted strings; (3) one extension and
    the extension loop: decided outcomes are stable, the checkpoint is a restart point; (4)
-   parseChunkMetadataSuffix: stability + conditional commutation (the unconditional one is false: see
-   ext_trailing_bws_refuted); (5) chunk-size; (6) headersEnd on trailer sections; (7) per-stage steps;
+   parseChunkMetadataSuffix: stability and (since the repair 1aa8f1c, unconditional) checkpoint commutation;
+   (5) chunk-size; (6) headersEnd on trailer sections; (7) per-stage steps;
    (8) the invariant of one parse() call and of the callers' loop over any (segment, capacity)
    schedule; (9) RFC character classes and the chunk-ext grammar satisfy what (8) needs;
-   (10) the theorems about RFC 9112 chunked bodies; (11) rejections and the segmentation finding. *)
-Require Import SquidV.Bytes SquidV.TokModel SquidV.TokProofs SquidV.Int64Proofs SquidV.ChunkedModel.
+   (10) the theorems about RFC 9112 chunked bodies; (11) rejections; (12) segmentation independence
+   for ALL inputs (instance of Incremental.v). *)
+Require Import SquidV.Bytes SquidV.TokModel SquidV.TokProofs SquidV.Int64Proofs SquidV.Incremental SquidV.ChunkedModel.
 Require Import SquidV.gen.CharSets_gen.
 Require Import ZifyBool ZifyN ZifyNat.
 Local Open Scope N_scope.
@@ -14,6 +15,7 @@ Ltac dsc := first [discriminate | (cbv beta iota; discriminate) | (let Hx := fre
 
 
 (* ======================= part 1 ======================= *)
+
 
 (* ---------- lists ---------- *)
 Lemma span_stop_app {A} (p : A -> bool) a y r :
@@ -167,6 +169,7 @@ Proof.
   destruct b as [|c1 b]; [congruence|]. cbn [app].
   destruct (c1 =? 10); reflexivity.
 Qed.
+
 
 
 (* ======================= part 2 ======================= *)
@@ -330,6 +333,7 @@ Proof.
   - destruct (is_nil b); [dsc|]. destruct (tok_prefix cs_TCHAR npos b) as [[t r']|] eqn:Ep; [|dsc].
     destruct (is_nil r'); [dsc|]. intros H. injection H as _ <-. eapply prefix_shorter; eassumption.
 Qed.
+
 
 
 (* ======================= part 3 ======================= *)
@@ -531,6 +535,7 @@ Proof.
 Qed.
 
 
+
 (* ======================= part 4 ======================= *)
 
 Lemma span_sub {A} (p q : A -> bool) l : (forall c, p c = true -> q c = true) ->
@@ -563,35 +568,27 @@ Definition ext_state (st : pstate) : pstate :=
 
 Lemma meta_eq relaxed st tok bufc :
   meta_suffix relaxed st tok bufc =
-  match parse_strict_bws tok with
-  | Insuf => SRet st bufc []
+  match fst (exts relaxed tok bufc) with
+  | Insuf => SRet st (snd (exts relaxed tok bufc)) []
   | Bad e => SThrow e []
-  | Ok t1 =>
-    match fst (exts relaxed t1 bufc) with
-    | Insuf => SRet st (snd (exts relaxed t1 bufc)) []
+  | Ok t2 =>
+    match tok_skipRequired EExtCrlf crlf t2 with
+    | Insuf => SRet st (snd (exts relaxed tok bufc)) []
     | Bad e => SThrow e []
-    | Ok t2 =>
-      match tok_skipRequired EExtCrlf crlf t2 with
-      | Insuf => SRet st (snd (exts relaxed t1 bufc)) []
-      | Bad e => SThrow e []
-      | Ok t3 => SGo (ext_state st) t3 t3 []
-      end
+    | Ok t3 => SGo (ext_state st) t3 t3 []
     end
   end.
 Proof.
-  unfold meta_suffix. destruct (parse_strict_bws tok) as [t1| |e]; try reflexivity.
-  rewrite exts_loop_exts by lia. destruct (exts relaxed t1 bufc) as [[t2| |e] ck]; reflexivity.
+  unfold meta_suffix. rewrite exts_loop_exts by lia. destruct (exts relaxed tok bufc) as [[t2| |e] ck]; reflexivity.
 Qed.
 
 Lemma meta_stable_go relaxed st b x st' t3 o :
   meta_suffix relaxed st b b = SGo st' t3 t3 o ->
   meta_suffix relaxed st (b ++ x) (b ++ x) = SGo st' (t3 ++ x) (t3 ++ x) o.
 Proof.
-  rewrite !meta_eq. unfold parse_strict_bws.
-  destruct (parse_bws_ cs_WSP b) as [t1| |e] eqn:E1; try discriminate.
-  rewrite bws_stable by congruence. rewrite E1. cbn [ext1].
-  destruct (fst (exts relaxed t1 b)) as [t2| |e] eqn:E2; try discriminate.
-  rewrite (exts_stable relaxed (length t1) t1 (le_n _) b x) by congruence. cbn [fst snd]. rewrite E2. cbn [ext1].
+  rewrite !meta_eq.
+  destruct (fst (exts relaxed b b)) as [t2| |e] eqn:E2; try discriminate.
+  rewrite (exts_stable relaxed (length b) b (le_n _) b x) by congruence. cbn [fst snd]. rewrite E2. cbn [ext1].
   destruct (tok_skipRequired EExtCrlf crlf t2) as [t3'| |e] eqn:E3; try discriminate.
   rewrite skipRequired_stable by congruence. rewrite E3. cbn [ext1].
   intros H. inversion H. subst. reflexivity.
@@ -601,89 +598,44 @@ Lemma meta_stable_throw relaxed st b x e o :
   meta_suffix relaxed st b b = SThrow e o ->
   meta_suffix relaxed st (b ++ x) (b ++ x) = SThrow e o.
 Proof.
-  rewrite !meta_eq. unfold parse_strict_bws.
-  destruct (parse_bws_ cs_WSP b) as [t1| |e1] eqn:E1; try discriminate.
-  2:{ exfalso; eapply bws_not_bad; eassumption. }
-  rewrite bws_stable by congruence. rewrite E1. cbn [ext1].
-  destruct (fst (exts relaxed t1 b)) as [t2| |e2] eqn:E2; try discriminate.
-  - rewrite (exts_stable relaxed (length t1) t1 (le_n _) b x) by congruence. cbn [fst snd]. rewrite E2. cbn [ext1].
+  rewrite !meta_eq.
+  destruct (fst (exts relaxed b b)) as [t2| |e2] eqn:E2; try discriminate.
+  - rewrite (exts_stable relaxed (length b) b (le_n _) b x) by congruence. cbn [fst snd]. rewrite E2. cbn [ext1].
     destruct (tok_skipRequired EExtCrlf crlf t2) as [t3'| |e3] eqn:E3; try discriminate.
     rewrite skipRequired_stable by congruence. rewrite E3. cbn [ext1]. tauto.
-  - rewrite (exts_stable relaxed (length t1) t1 (le_n _) b x) by congruence. cbn [fst snd]. rewrite E2. cbn [ext1]. tauto.
+  - rewrite (exts_stable relaxed (length b) b (le_n _) b x) by congruence. cbn [fst snd]. rewrite E2. cbn [ext1]. tauto.
 Qed.
 
 Lemma meta_ret_state relaxed st b ck st' o : meta_suffix relaxed st b b = SRet st' ck o -> st' = st /\ o = [].
 Proof.
-  rewrite meta_eq. destruct (parse_strict_bws b) as [t1| |e]; try discriminate.
-  - destruct (fst (exts relaxed t1 b)) as [t2| |e]; try discriminate.
-    + destruct (tok_skipRequired EExtCrlf crlf t2); try discriminate. intros H; injection H as <- _ <-. tauto.
-    + intros H; injection H as <- _ <-. tauto.
+  rewrite meta_eq.
+  destruct (fst (exts relaxed b b)) as [t2| |e]; try discriminate.
+  - destruct (tok_skipRequired EExtCrlf crlf t2); try discriminate. intros H; injection H as <- _ <-. tauto.
   - intros H; injection H as <- _ <-. tauto.
 Qed.
 
 Lemma meta_not_fuel relaxed st b : meta_suffix relaxed st b b <> SFuel.
 Proof.
-  rewrite meta_eq. destruct (parse_strict_bws b) as [t1| |e]; try discriminate.
-  destruct (fst (exts relaxed t1 b)) as [t2| |e]; try discriminate.
+  rewrite meta_eq.
+  destruct (fst (exts relaxed b b)) as [t2| |e]; try discriminate.
   destruct (tok_skipRequired EExtCrlf crlf t2); discriminate.
 Qed.
 
 Lemma wsp_cr : cs_WSP 13 = false. Proof. vm_compute. reflexivity. Qed.
 
-(* re-entering through ParseStrictBws at a restart point of the extension loop *)
-Lemma reentry relaxed c t2 ck2 R :
-  exts relaxed c c = (Ok t2, ck2) -> tok_skipRequired EExtCrlf crlf t2 = Ok R ->
-  exists t1, parse_strict_bws c = Ok t1 /\
-             exists ck2', exts relaxed t1 c = (Ok t2, ck2').
-Proof.
-  intros He Hs. rewrite exts_unfold in He. unfold parse_bws, parse_strict_bws in *.
-  destruct (parse_bws_ (ws_chars relaxed) c) as [b1| |e] eqn:E1; try discriminate.
-  assert (Hsp : snd (span (ws_chars relaxed) c) = b1 /\ b1 <> []).
-  { unfold parse_bws_ in E1. rewrite tok_skipAll_spec in E1. destruct (snd (span (ws_chars relaxed) c)); cbn [is_nil] in E1; [discriminate|].
-    injection E1 as <-. split; [reflexivity|discriminate]. }
-  destruct Hsp as [Hsp Hb1].
-  pose proof (span_sub cs_WSP (ws_chars relaxed) c (wsp_sub relaxed)) as Hsub.
-  set (t1 := snd (span cs_WSP c)) in *.
-  assert (Ht1 : t1 <> []).
-  { intros Hn. rewrite Hn in Hsub. cbn in Hsub. congruence. }
-  assert (Hstrict : parse_bws_ cs_WSP c = Ok t1).
-  { unfold parse_bws_. rewrite tok_skipAll_spec. fold t1. destruct t1; [congruence|reflexivity]. }
-  exists t1. split; [exact Hstrict|].
-  assert (Hrel : parse_bws_ (ws_chars relaxed) t1 = Ok b1).
-  { unfold parse_bws_. rewrite tok_skipAll_spec. rewrite Hsub, Hsp. destruct b1; [congruence|reflexivity]. }
-  rewrite exts_unfold. unfold parse_bws. rewrite Hrel.
-  destruct (negb (fst (tok_skipChar 59 b1))) eqn:En.
-  - (* no extension follows: c starts with CRLF, nothing was skipped *)
-    injection He as <- <-. rewrite skipRequired_crlf_cases in Hs.
-    destruct c as [|c0 c']; [discriminate|].
-    destruct (c0 =? 13) eqn:E0; [|discriminate]. apply N.eqb_eq in E0. subst c0.
-    unfold t1. cbn [span]. rewrite wsp_cr. cbn [snd]. eexists. reflexivity.
-  - destruct (one_ext relaxed (snd (tok_skipChar 59 b1))) as [[b3| |e]|]; try discriminate.
-    eexists. exact He.
-Qed.
-
-Lemma meta_commute relaxed st b ck o st1 x st' R o' :
+(* since 1aa8f1c the checkpoint of the chunk-ext stage commutes with more input, unconditionally *)
+Lemma meta_commute relaxed st b ck o st1 x :
   meta_suffix relaxed st b b = SRet st1 ck o ->
-  meta_suffix relaxed st (b ++ x) (b ++ x) = SGo st' R R o' ->
-  meta_suffix relaxed st (ck ++ x) (ck ++ x) = SGo st' R R o'.
+  meta_suffix relaxed st (b ++ x) (b ++ x) = meta_suffix relaxed st (ck ++ x) (ck ++ x).
 Proof.
-  intros Hret Hgo. rewrite meta_eq in Hret. rewrite meta_eq in Hgo. unfold parse_strict_bws in *.
-  destruct (parse_bws_ cs_WSP b) as [t1| |e] eqn:E1; try discriminate.
-  2:{ injection Hret as _ <- _. rewrite meta_eq. exact Hgo. }
-  rewrite bws_stable in Hgo by congruence. rewrite E1 in Hgo. cbn [ext1] in Hgo.
-  assert (Hck : ck = snd (exts relaxed t1 b)).
-  { destruct (fst (exts relaxed t1 b)) as [t2| |e]; try discriminate.
+  intros Hret. rewrite meta_eq in Hret.
+  assert (Hck : ck = snd (exts relaxed b b)).
+  { destruct (fst (exts relaxed b b)) as [t2| |e]; try discriminate.
     - destruct (tok_skipRequired EExtCrlf crlf t2); try discriminate. injection Hret as _ <- _. reflexivity.
     - injection Hret as _ <- _. reflexivity. }
-  destruct (exts_restart relaxed (length t1) t1 (le_n _) b) as [Hsame|Hrs].
-  { rewrite Hsame in Hck. rewrite Hck. rewrite meta_eq. unfold parse_strict_bws.
-    rewrite bws_stable by congruence. rewrite E1. cbn [ext1]. exact Hgo. }
-  rewrite <- Hck in Hrs. rewrite (Hrs x (b ++ x)) in Hgo.
-  destruct (exts relaxed (ck ++ x) (ck ++ x)) as [r2 ck2] eqn:E2. cbn [fst snd] in Hgo.
-  destruct r2 as [t2| |e]; try discriminate.
-  destruct (tok_skipRequired EExtCrlf crlf t2) as [t3| |e] eqn:E3; try discriminate.
-  destruct (reentry relaxed (ck ++ x) t2 ck2 t3 E2 E3) as (t1' & Hst & ck2' & He').
-  rewrite meta_eq. unfold parse_strict_bws in *. rewrite Hst. rewrite He'. cbn [fst snd]. rewrite E3. exact Hgo.
+  destruct (exts_restart relaxed (length b) b (le_n _) b) as [Hsame|Hrs].
+  - rewrite Hsame in Hck. subst ck. reflexivity.
+  - rewrite <- Hck in Hrs. rewrite !meta_eq. rewrite (Hrs x (b ++ x)). reflexivity.
 Qed.
 
 
@@ -789,7 +741,11 @@ Definition two63N : N := 9223372036854775808.
 Lemma size_full st ds c t0 :
   ds <> [] -> forallb is_hex ds = true -> hex_value 0 ds < two63N -> lenN ds < npos ->
   is_hex c = false -> c <> 120 -> c <> 88 ->
-  chunk_size st (ds ++ c :: t0) = Ok (Some (size_state (hex_value 0 ds), c :: t0)).
+  chunk_size st (ds ++ c :: t0) =
+  match parse_strict_bws (c :: t0) with
+  | Insuf => Ok None | Bad e => Bad e
+  | Ok r' => Ok (Some (size_state (hex_value 0 ds), r'))
+  end.
 Proof.
   intros Hne Hhex Hv Hlen Hc Hx1 Hx2. unfold chunk_size.
   assert (H0 : no0x (ds ++ c :: t0)).
@@ -834,6 +790,7 @@ Proof.
   change (_ :: map _ p') with (map (fun c0 : N => match hexval c0 with Some d => Z.of_N d | None => 0%Z end) (d0 :: p')).
   rewrite lenN_map, N.add_0_l. rewrite dropN_all by lia. reflexivity.
 Qed.
+
 
 
 (* ======================= part 6 ======================= *)
@@ -949,6 +906,7 @@ Qed.
 End TrailerSpec.
 
 
+
 (* ======================= part 7 ======================= *)
 
 Lemma lenN_dropN {A} n (l : list A) : lenN (dropN n l) = lenN l - n.
@@ -961,27 +919,57 @@ Lemma length_lenN {A} (a b : list A) : (length a <= length b)%nat <-> lenN a <= 
 Proof. rewrite !lenN_length. lia. Qed.
 
 (* ---------- what the core proof needs from a chunk header ---------- *)
+Definition wsp_ok (w : bytes) : Prop := forallb cs_WSP w = true.
 Definition head_ok (xc : bytes) : Prop :=
-  match xc with c :: _ => is_hex c = false /\ c <> 120 /\ c <> 88 | [] => False end.
+  match xc with c :: _ => cs_WSP c = false /\ is_hex c = false /\ c <> 120 /\ c <> 88 | [] => False end.
 Definition ext_sem (relaxed : bool) (st : pstate) (xc : bytes) : Prop :=
   forall R0, meta_suffix relaxed st (xc ++ R0) (xc ++ R0) = SGo (ext_state st) R0 R0 [].
 Definition digits_ok (ds : bytes) (v : N) : Prop :=
   ds <> [] /\ forallb is_hex ds = true /\ hex_value 0 ds = v /\ v < two63N /\ lenN ds < npos.
 
-Lemma size_step st ds v Y tok fut :
-  digits_ok ds v -> head_ok Y -> tok ++ fut = ds ++ Y ->
-  (chunk_size st tok = Ok None /\ exists l, ds = tok ++ l) \/
-  (exists l, l <> [] /\ tok = ds ++ l /\ l ++ fut = Y /\ chunk_size st tok = Ok (Some (size_state v, l))).
+Lemma bws_run set w y r : forallb set w = true -> set y = false -> parse_bws_ set (w ++ y :: r) = Ok (y :: r).
+Proof. intros Hw Hy. unfold parse_bws_. rewrite tok_skipAll_spec. rewrite (span_stop_app set w y r Hw Hy). reflexivity. Qed.
+Lemma bws_all set w : forallb set w = true -> parse_bws_ set w = Insuf.
+Proof. intros Hw. unfold parse_bws_. rewrite tok_skipAll_spec. rewrite (span_all_nil set w Hw). reflexivity. Qed.
+
+Lemma wsp_nothex c : cs_WSP c = true -> is_hex c = false /\ c <> 120 /\ c <> 88.
 Proof.
-  intros (Hne & Hhex & Hv & Hlt & Hlen) HY Heq. subst v.
+  intros H. destruct (N.lt_ge_cases c 256) as [Hc|Hc].
+  - pose proof (forallb_bytes (fun c => implb (cs_WSP c) (negb (is_hex c) && negb (c =? 120) && negb (c =? 88)))
+                  ltac:(vm_compute; reflexivity) c Hc) as Hi.
+    cbv beta in Hi. rewrite H in Hi. cbn [implb] in Hi. apply andb_prop in Hi as [Hi H3]. apply andb_prop in Hi as [H1 H2].
+    apply negb_true_iff in H1, H2, H3. apply N.eqb_neq in H2, H3. tauto.
+  - unfold cs_WSP, mem_tbl in H. rewrite tbl_beyond in H; [discriminate|]. change (lenN cs_WSP_tbl) with 256. exact Hc.
+Qed.
+
+Lemma size_step st ds v w Y tok fut :
+  digits_ok ds v -> wsp_ok w -> head_ok Y -> tok ++ fut = ds ++ w ++ Y ->
+  (chunk_size st tok = Ok None /\ exists l, ds ++ w = tok ++ l) \/
+  (exists l, l <> [] /\ tok = ds ++ w ++ l /\ l ++ fut = Y /\ chunk_size st tok = Ok (Some (size_state v, l))).
+Proof.
+  intros (Hne & Hhex & Hv & Hlt & Hlen) Hw HY Heq. subst v.
   destruct (app_eq_app _ _ _ _ Heq) as [l [[H1 H2]|[H1 H2]]].
   - destruct l as [|c t0].
-    + left. rewrite app_nil_r in H1. subst tok. split; [|exists []; now rewrite app_nil_r].
+    + left. rewrite app_nil_r in H1. subst tok. split; [|exists w; reflexivity].
       apply (size_prefix st ds []); rewrite app_nil_r; assumption.
-    + right. exists (c :: t0). subst tok Y. cbn [app head_ok] in HY. destruct HY as (Hc & Hx1 & Hx2).
-      split; [discriminate|]. split; [reflexivity|]. split; [reflexivity|].
-      apply size_full; assumption.
-  - left. split; [|exists l; exact H1]. subst ds. apply (size_prefix st tok l); assumption.
+    + (* tok = ds ++ c :: t0 and c :: t0 ++ fut = w ++ Y *)
+      assert (Hc : is_hex c = false /\ c <> 120 /\ c <> 88).
+      { destruct w as [|w0 w']; cbn [app] in H2.
+        - destruct Y as [|y Y']; [destruct HY|]. injection H2 as <- _. cbn [head_ok] in HY. tauto.
+        - injection H2 as <- _. unfold wsp_ok in Hw. cbn [forallb] in Hw. apply andb_prop in Hw as [Hw0 _]. apply wsp_nothex. exact Hw0. }
+      destruct Hc as (Hc & Hx1 & Hx2).
+      subst tok. rewrite (size_full st ds c t0 Hne Hhex Hlt Hlen Hc Hx1 Hx2). unfold parse_strict_bws.
+      destruct (app_eq_app _ _ _ _ H2) as [l2 [[G1 G2]|[G1 G2]]].
+      * (* w = (c :: t0) ++ l2 : everything after the digits is still BWS *)
+        left. rewrite G1 in Hw. unfold wsp_ok in Hw. rewrite forallb_app in Hw. apply andb_prop in Hw as [Hw1 _].
+        rewrite (bws_all _ _ Hw1). split; [reflexivity|]. exists l2. rewrite G1. now rewrite app_assoc.
+      * (* c :: t0 = w ++ l2, Y = l2 ++ fut *)
+        destruct l2 as [|y l2'].
+        { left. rewrite app_nil_r in G1. rewrite G1. rewrite (bws_all _ _ Hw). split; [reflexivity|]. exists []. now rewrite app_nil_r. }
+        right. exists (y :: l2'). rewrite G1. rewrite G2 in HY. cbn [app head_ok] in HY.
+        rewrite (bws_run cs_WSP w y l2' Hw (proj1 HY)).
+        split; [discriminate|]. split; [reflexivity|]. split; [symmetry; exact G2| reflexivity].
+  - left. split; [|exists (l ++ w); rewrite app_assoc, <- H1; reflexivity]. subst ds. apply (size_prefix st tok l); assumption.
 Qed.
 
 Lemma crlf_step e b fut M :
@@ -1015,25 +1003,26 @@ Proof.
     destruct (meta_suffix relaxed st tok tok) as [st1 t3 b3 o|st1 ck o|e o|] eqn:Em.
     + (* SGo on a proper prefix: impossible *)
       exfalso. assert (t3 = b3).
-      { rewrite meta_eq in Em. destruct (parse_strict_bws tok); try discriminate.
-        destruct (fst (exts relaxed a tok)); try discriminate.
-        destruct (tok_skipRequired EExtCrlf crlf a0); try discriminate. inversion Em. reflexivity. }
+      { rewrite meta_eq in Em.
+        destruct (fst (exts relaxed tok tok)); try discriminate.
+        destruct (tok_skipRequired EExtCrlf crlf a); try discriminate. inversion Em. reflexivity. }
       subst b3. rewrite (meta_stable_go _ _ _ l _ _ _ Em) in Hfull. inversion Hfull as [[Hs Ht Ho]].
       destruct t3; discriminate.
     + destruct (meta_ret_state _ _ _ _ _ _ Em) as [-> ->].
       exists ck, (ck ++ l), l. split; [discriminate|]. split; [exact H1|]. split; [reflexivity|]. split.
       * intros R0. rewrite <- app_assoc.
-        eapply meta_commute; [exact Em|]. rewrite app_assoc, <- H1. apply Hsem.
+        rewrite <- (meta_commute _ _ _ _ _ _ (l ++ R0) Em). rewrite app_assoc, <- H1. apply Hsem.
       * rewrite H2. now rewrite app_assoc.
     + exfalso. rewrite (meta_stable_throw _ _ _ l _ _ Em) in Hfull. discriminate.
     + exfalso. eapply meta_not_fuel; eassumption.
 Qed.
 
 
+
 (* ======================= part 8 ======================= *)
 
-Record cchunk := { c_ds : bytes; c_xc : bytes; c_data : bytes }.
-Definition enc_cchunk (k : cchunk) : bytes := c_ds k ++ c_xc k ++ c_data k ++ crlf.
+Record cchunk := { c_ds : bytes; c_w : bytes; c_xc : bytes; c_data : bytes }.
+Definition enc_cchunk (k : cchunk) : bytes := c_ds k ++ c_w k ++ c_xc k ++ c_data k ++ crlf.
 Definition enc_cs (cs : list cchunk) : bytes := concat (map enc_cchunk cs).
 Definition body_cs (cs : list cchunk) : bytes := concat (map c_data cs).
 
@@ -1082,8 +1071,9 @@ Proof. intros (H & _). destruct ds; [congruence| cbn; lia]. Qed.
 
 Section Core.
 Variable relaxed : bool.
-Variables zeros lxc Tr tail : bytes.
+Variables zeros lw lxc Tr tail : bytes.
 Hypothesis Hzeros : digits_ok zeros 0.
+Hypothesis Hlw : wsp_ok lw.
 Hypothesis Hlhead : head_ok lxc.
 Hypothesis Hlsem : forall st, ext_sem relaxed st lxc.
 Hypothesis HTfull : forall t0, headers_end (Tr ++ t0) = lenN Tr.
@@ -1091,9 +1081,9 @@ Hypothesis HTpre : forall p l, Tr = p ++ l -> l <> [] -> headers_end p = 0.
 Hypothesis HTlen : 0 < lenN Tr < trailer_limit.
 
 Definition cchunk_ok (k : cchunk) : Prop :=
-  digits_ok (c_ds k) (lenN (c_data k)) /\ c_data k <> [] /\ head_ok (c_xc k) /\ (forall st, ext_sem relaxed st (c_xc k)).
+  digits_ok (c_ds k) (lenN (c_data k)) /\ c_data k <> [] /\ wsp_ok (c_w k) /\ head_ok (c_xc k) /\ (forall st, ext_sem relaxed st (c_xc k)).
 
-Definition Ltail : bytes := zeros ++ lxc ++ Tr ++ tail.
+Definition Ltail : bytes := zeros ++ lw ++ lxc ++ Tr ++ tail.
 
 Inductive Inv : pstate -> bytes -> bytes -> Prop :=
 | I_sz st cs : p_stage st = StSz -> Forall cchunk_ok cs -> Inv st (enc_cs cs ++ Ltail) (body_cs cs)
@@ -1143,37 +1133,37 @@ Proof.
   destruct cs as [|k0 cs'].
   - (* last-chunk *)
     cbn [enc_cs map concat app] in *. unfold Ltail in *.
-    destruct (size_step st zeros 0 (lxc ++ Tr ++ tail) tok fut Hzeros) as [[Hn [l Hl]]|(l & Hne & Htok & Hl & Hsz)].
+    destruct (size_step st zeros 0 lw (lxc ++ Tr ++ tail) tok fut Hzeros Hlw) as [[Hn [l Hl]]|(l & Hne & Htok & Hl & Hsz)].
     { apply head_ok_app. exact Hlhead. }
     { symmetry. exact E1. }
     + rewrite Hn. apply post_fin; [rewrite <- E1; apply (I_sz st []); [exact Hst| constructor] | congruence | exact Hout|].
-      intros C. exfalso. unfold complete in C. rewrite Hl in E1. rewrite <- !app_assoc in E1.
+      intros C. exfalso. unfold complete in C. rewrite (app_assoc zeros), Hl in E1. rewrite <- !app_assoc in E1.
       apply app_inv_head in E1. lens E1.
       pose proof (head_ok_len _ Hlhead). lia.
     + rewrite Hsz. subst tok.
       assert (HI' : Inv (size_state 0) (l ++ fut) []).
       { rewrite Hl. apply I_ext_last; [reflexivity|reflexivity| apply Hlsem]. }
       apply IH; [exact HI'| discriminate | | exact Hout].
-      rewrite app_length in Hlen. pose proof (digits_len _ _ Hzeros). lia.
+      rewrite !app_length in Hlen. pose proof (digits_len _ _ Hzeros). lia.
   - cbn [enc_cs map concat body_cs] in *. fold (enc_cs cs') in *. fold (body_cs cs') in *.
     inversion Hcs as [|? ? Hk0 Hcs']; subst.
-    destruct Hk0 as (Hd & Hdata & Hhead & Hsem).
+    destruct Hk0 as (Hd & Hdata & Hkw & Hhead & Hsem).
     unfold enc_cchunk in E1. rewrite <- !app_assoc in E1.
-    destruct (size_step st (c_ds k0) _ (c_xc k0 ++ c_data k0 ++ crlf ++ enc_cs cs' ++ Ltail) tok fut Hd) as [[Hn [l Hl]]|(l & Hne & Htok & Hl & Hsz)].
+    destruct (size_step st (c_ds k0) _ (c_w k0) (c_xc k0 ++ c_data k0 ++ crlf ++ enc_cs cs' ++ Ltail) tok fut Hd Hkw) as [[Hn [l Hl]]|(l & Hne & Htok & Hl & Hsz)].
     { apply head_ok_app. exact Hhead. }
     { symmetry. exact E1. }
     + rewrite Hn. apply post_fin; [rewrite <- E1;
-        replace (c_ds k0 ++ c_xc k0 ++ c_data k0 ++ crlf ++ enc_cs cs' ++ Ltail) with (enc_cs (k0 :: cs') ++ Ltail)
+        replace (c_ds k0 ++ c_w k0 ++ c_xc k0 ++ c_data k0 ++ crlf ++ enc_cs cs' ++ Ltail) with (enc_cs (k0 :: cs') ++ Ltail)
           by (cbn [enc_cs map concat]; unfold enc_cchunk; rewrite <- !app_assoc; reflexivity);
         change (c_data k0 ++ body_cs cs') with (body_cs (k0 :: cs')); apply I_sz; [exact Hst| exact Hcs]
         | congruence | exact Hout|].
-      intros C. exfalso. unfold complete in C. rewrite Hl in E1. rewrite <- !app_assoc in E1.
+      intros C. exfalso. unfold complete in C. rewrite (app_assoc (c_ds k0)), Hl in E1. rewrite <- !app_assoc in E1.
       apply app_inv_head in E1. unfold Ltail in E1. lens E1. lia.
     + rewrite Hsz. subst tok.
       assert (HI' : Inv (size_state (lenN (c_data k0))) (l ++ fut) (c_data k0 ++ body_cs cs')).
       { rewrite Hl. apply I_ext; try reflexivity; try assumption. apply Hsem. }
       apply IH; [exact HI'| discriminate | | exact Hout].
-      rewrite app_length in Hlen. pose proof (digits_len _ _ Hd). lia.
+      rewrite !app_length in Hlen. pose proof (digits_len _ _ Hd). lia.
 Qed.
 
 Lemma post_shift out o1 B r : Post (out ++ o1) B r -> Post out (o1 ++ B) r.
@@ -1461,6 +1451,7 @@ Qed.
 End Core.
 
 
+
 (* ======================= part 9 ======================= *)
 
 (* ================= RFC 9110/9112 character classes, written out ================= *)
@@ -1571,9 +1562,6 @@ Proof.
   intros Hy. rewrite tok_prefix_eq_spec. unfold prefix_spec. cbn [takeN].
   destruct (lim =? 0); [reflexivity|]. cbn [span]. rewrite Hy. reflexivity.
 Qed.
-
-Lemma bws_run set w y r : forallb set w = true -> set y = false -> parse_bws_ set (w ++ y :: r) = Ok (y :: r).
-Proof. intros Hw Hy. unfold parse_bws_. rewrite tok_skipAll_spec. rewrite (span_stop_app set w y r Hw Hy). reflexivity. Qed.
 
 Lemma forallb_imp {A} (p q : A -> bool) l : (forall c, p c = true -> q c = true) -> forallb p l = true -> forallb q l = true.
 Proof. intros H. induction l as [|c l IH]; cbn [forallb]; [tauto|]. intros Hl. apply andb_prop in Hl as [H1 H2]. now rewrite (H c H1), (IH H2). Qed.
@@ -1754,41 +1742,40 @@ Lemma enc_exts_cons e es T : enc_exts (e :: es) ++ T =
   x_w1 e ++ 59 :: (x_w2 e ++ x_name e ++ enc_val (x_val e) ++ enc_exts es ++ T).
 Proof. unfold enc_exts. cbn [map concat]. unfold enc_ext. rewrite <- !app_assoc. reflexivity. Qed.
 
-Lemma grammar_ext_sem relaxed st es : Forall ext_ok es -> ext_sem relaxed st (enc_exts es ++ crlf).
+(* since 1aa8f1c the BWS in front of the first extension is consumed with the chunk-size *)
+Definition ext_w (es : list ext) : bytes := match es with [] => [] | e :: _ => x_w1 e end.
+Definition ext_xc (es : list ext) : bytes :=
+  match es with
+  | [] => crlf
+  | e :: es' => 59 :: (x_w2 e ++ x_name e ++ enc_val (x_val e) ++ enc_exts es' ++ crlf)
+  end.
+Lemma ext_split es : enc_exts es ++ crlf = ext_w es ++ ext_xc es.
+Proof. destruct es as [|e es']; [reflexivity|]. rewrite enc_exts_cons. reflexivity. Qed.
+
+Lemma grammar_ext_sem relaxed st es : Forall ext_ok es -> ext_sem relaxed st (ext_xc es).
 Proof.
-  intros Hes R0. rewrite <- app_assoc.
-  remember (enc_exts es ++ crlf ++ R0) as full eqn:Ef. rewrite meta_eq. unfold parse_strict_bws.
-  assert (Hw59 : cs_WSP 59 = false) by (vm_compute; reflexivity).
+  intros Hes R0.
   assert (Hskip : tok_skipRequired EExtCrlf crlf (crlf ++ R0) = Ok R0) by (rewrite skipRequired_crlf_cases; reflexivity).
+  rewrite meta_eq.
   destruct Hes as [|e es He Hes].
-  - change (enc_exts [] ++ crlf ++ R0) with (crlf ++ R0) in Ef.
-    assert (Hs : parse_bws_ cs_WSP full = Ok full).
-    { rewrite Ef. change (crlf ++ R0) with ([] ++ 13 :: 10 :: R0). apply bws_run; [reflexivity| exact wsp_cr]. }
-    rewrite Hs. pose proof (exts_valid relaxed R0 [] full (Forall_nil _)) as Hx.
-    change (enc_exts [] ++ crlf ++ R0) with (crlf ++ R0) in Hx. rewrite <- Ef in Hx. rewrite Hx. cbv beta iota. rewrite Ef, Hskip. reflexivity.
-  - rewrite enc_exts_cons in Ef.
-    set (BODY := x_w2 e ++ x_name e ++ enc_val (x_val e) ++ enc_exts es ++ crlf ++ R0) in *.
-    assert (Hs : parse_bws_ cs_WSP full = Ok (59 :: BODY)).
-    { rewrite Ef. apply bws_run; [apply bws_wsp; apply He| exact Hw59]. }
-    rewrite Hs.
-    set (e' := {| x_w1 := []; x_w2 := x_w2 e; x_name := x_name e; x_val := x_val e |}).
+  - cbn [ext_xc]. pose proof (exts_valid relaxed R0 [] (crlf ++ R0) (Forall_nil _)) as Hx.
+    change (enc_exts [] ++ crlf ++ R0) with (crlf ++ R0) in Hx. rewrite Hx. cbv beta iota. rewrite Hskip. reflexivity.
+  - set (e' := {| x_w1 := []; x_w2 := x_w2 e; x_name := x_name e; x_val := x_val e |}).
     assert (He' : ext_ok e').
     { destruct He as (H1 & H2 & H3 & H4 & H5). unfold ext_ok, e'. cbn [x_w1 x_w2 x_name x_val]. repeat split; try assumption; try reflexivity.
       - apply H3. - apply H3.
       - unfold enc_ext in *. cbn [x_w1 x_w2 x_name x_val app] in *. rewrite lenN_app in H5. lia. }
-    pose proof (exts_valid relaxed R0 (e' :: es) full (Forall_cons _ He' Hes)) as Hx.
-    rewrite enc_exts_cons in Hx. cbn [x_w1 x_w2 x_name x_val e' app] in Hx. fold BODY in Hx.
-    rewrite Hx. cbv beta iota. rewrite Hskip. reflexivity.
+    assert (Heq : ext_xc (e :: es) ++ R0 = enc_exts (e' :: es) ++ crlf ++ R0).
+    { rewrite enc_exts_cons. cbn [ext_xc x_w1 x_w2 x_name x_val e' app]. rewrite <- !app_assoc. reflexivity. }
+    rewrite Heq.
+    rewrite (exts_valid relaxed R0 (e' :: es) _ (Forall_cons _ He' Hes)). cbv beta iota. rewrite Hskip. reflexivity.
 Qed.
 
-Lemma grammar_head_ok es : Forall ext_ok es -> head_ok (enc_exts es ++ crlf).
-Proof.
-  intros Hes. destruct (nxt_exts es [] Hes) as (w & y & r & Heq & Hw & Hy). rewrite app_nil_r in Heq. rewrite Heq.
-  destruct w as [|c w'].
-  - cbn [app head_ok]. destruct Hy as [->|[-> _]]; repeat split; try reflexivity; lia.
-  - cbn [app head_ok]. unfold bws_ok in Hw. cbn [forallb] in Hw. apply andb_prop in Hw as [Hc _].
-    unfold rfc_bws in Hc. apply orb_prop in Hc as [Hc|Hc]; apply N.eqb_eq in Hc; subst c; repeat split; try reflexivity; lia.
-Qed.
+Lemma grammar_head_ok es : head_ok (ext_xc es).
+Proof. destruct es; cbn [ext_xc head_ok crlf]; repeat split; try (vm_compute; reflexivity); lia. Qed.
+
+Lemma grammar_wsp es : Forall ext_ok es -> wsp_ok (ext_w es).
+Proof. intros H. destruct H as [|e es' He _]; [reflexivity|]. cbn [ext_w]. apply bws_wsp. apply He. Qed.
 
 
 (* ======================= part 10 ======================= *)
@@ -1812,12 +1799,14 @@ Definition message_ok (m : message) : Prop :=
   Forall chunk_ok (m_chunks m) /\ digits_ok (m_zeros m) 0 /\ Forall ext_ok (m_last_exts m) /\
   Forall (field_ok rfc_tchar) (m_trailer m) /\ lenN (enc_fields (m_trailer m) ++ crlf) < trailer_limit.
 
-Definition to_c (k : chunk) : cchunk := {| c_ds := k_digits k; c_xc := enc_exts (k_exts k) ++ crlf; c_data := k_data k |}.
+Definition to_c (k : chunk) : cchunk :=
+  {| c_ds := k_digits k; c_w := ext_w (k_exts k); c_xc := ext_xc (k_exts k); c_data := k_data k |}.
 
 Lemma enc_to_c ks : enc_cs (map to_c ks) = concat (map enc_chunk ks).
 Proof.
   induction ks as [|k ks IH]; [reflexivity|]. unfold enc_cs in *. cbn [map concat]. rewrite IH.
-  unfold enc_cchunk, enc_chunk, to_c. cbn [c_ds c_xc c_data]. rewrite <- !app_assoc. reflexivity.
+  unfold enc_cchunk, enc_chunk, to_c. cbn [c_ds c_w c_xc c_data]. rewrite <- !app_assoc.
+  rewrite (app_assoc (enc_exts (k_exts k)) crlf), ext_split, <- !app_assoc. reflexivity.
 Qed.
 Lemma body_to_c ks : body_cs (map to_c ks) = concat (map k_data ks).
 Proof. induction ks as [|k ks IH]; [reflexivity|]. unfold body_cs in *. cbn [map concat]. now rewrite IH. Qed.
@@ -1829,11 +1818,13 @@ Hypothesis Hm : message_ok m.
 Variable tail : bytes.
 
 Let zeros := m_zeros m.
-Let lxc := enc_exts (m_last_exts m) ++ crlf.
+Let lw := ext_w (m_last_exts m).
+Let lxc := ext_xc (m_last_exts m).
 Let Tr := enc_fields (m_trailer m) ++ crlf.
 
 Lemma F_zeros : digits_ok zeros 0. Proof. apply Hm. Qed.
-Lemma F_lhead : head_ok lxc. Proof. apply grammar_head_ok. apply Hm. Qed.
+Lemma F_lw : wsp_ok lw. Proof. apply grammar_wsp. apply Hm. Qed.
+Lemma F_lhead : head_ok lxc. Proof. apply grammar_head_ok. Qed.
 Lemma F_lsem : forall st, ext_sem relaxed st lxc. Proof. intros st. apply grammar_ext_sem. apply Hm. Qed.
 Lemma F_Tfull : forall t0, headers_end (Tr ++ t0) = lenN Tr.
 Proof. intros t0. apply (he_trailer_full rfc_tchar tchar_not_crlf). apply Hm. Qed.
@@ -1845,16 +1836,16 @@ Proof. split; [unfold Tr; rewrite lenN_app; cbn; lia| apply Hm]. Qed.
 Lemma F_chunks : Forall (cchunk_ok relaxed) (map to_c (m_chunks m)).
 Proof.
   destruct Hm as (Hc & _). induction Hc as [|k ks Hk Hks IH]; cbn [map]; constructor; [|exact IH].
-  destruct Hk as (Hd & Hne & He). unfold cchunk_ok, to_c. cbn [c_ds c_xc c_data].
-  split; [exact Hd|]. split; [exact Hne|]. split; [apply grammar_head_ok; exact He|]. intros st. apply grammar_ext_sem. exact He.
+  destruct Hk as (Hd & Hne & He). unfold cchunk_ok, to_c. cbn [c_ds c_w c_xc c_data].
+  split; [exact Hd|]. split; [exact Hne|]. split; [apply grammar_wsp; exact He|]. split; [apply grammar_head_ok|]. intros st. apply grammar_ext_sem. exact He.
 Qed.
 
-Lemma F_init : Inv relaxed zeros lxc Tr tail (norm_state init_state) (encode m ++ tail) (body m).
+Lemma F_init : Inv relaxed zeros lw lxc Tr tail (norm_state init_state) (encode m ++ tail) (body m).
 Proof.
   unfold encode, body. rewrite <- enc_to_c, <- body_to_c.
   replace ((enc_cs (map to_c (m_chunks m)) ++ m_zeros m ++ enc_exts (m_last_exts m) ++ crlf ++ enc_fields (m_trailer m) ++ crlf) ++ tail)
-    with (enc_cs (map to_c (m_chunks m)) ++ Ltail zeros lxc Tr tail)
-    by (unfold Ltail, zeros, lxc, Tr; rewrite <- !app_assoc; reflexivity).
+    with (enc_cs (map to_c (m_chunks m)) ++ Ltail zeros lw lxc Tr tail)
+    by (unfold Ltail, zeros, lw, lxc, Tr; rewrite <- !app_assoc; rewrite (app_assoc (enc_exts (m_last_exts m)) crlf), ext_split, <- !app_assoc; reflexivity).
   apply I_sz; [reflexivity| apply F_chunks].
 Qed.
 
@@ -1867,7 +1858,7 @@ Theorem dechunk_safe sched rest :
   \/ (r_status r = RMore /\ exists B', body m = r_out r ++ B').
 Proof.
   intros Heq. cbv zeta. unfold run_chunked.
-  pose proof (run_safe relaxed zeros lxc Tr tail F_zeros F_lhead F_lsem F_Tfull F_Tpre F_Tlen sched init_state [] [] [] (body m) rest
+  pose proof (run_safe relaxed zeros lw lxc Tr tail F_zeros F_lw F_lhead F_lsem F_Tfull F_Tpre F_Tlen sched init_state [] [] [] (body m) rest
                 ltac:(discriminate)) as H.
   cbn [app] in H. rewrite Heq in H. specialize (H F_init). cbv zeta in H.
   destruct H as [(Hs & Ho & used & later & Hsg & Hr)|(Hs & _ & o & B' & Ho & HB & _)].
@@ -1885,7 +1876,7 @@ Theorem dechunk_complete sched rest :
   r_status (run_chunked relaxed sched) = RDone.
 Proof.
   intros Heq Hl. unfold run_chunked.
-  apply (run_live relaxed zeros lxc Tr tail F_zeros F_lhead F_lsem F_Tfull F_Tpre F_Tlen sched init_state [] [] [] (body m) rest);
+  apply (run_live relaxed zeros lw lxc Tr tail F_zeros F_lw F_lhead F_lsem F_Tfull F_Tpre F_Tlen sched init_state [] [] [] (body m) rest);
     [discriminate| cbn [app]; rewrite Heq; apply F_init | exact Hl].
 Qed.
 End Final.
@@ -1912,6 +1903,7 @@ Proof.
   exfalso. rewrite Hsg, Hu in Heq. apply (f_equal (@length N)) in Heq. repeat rewrite app_length in Heq.
   destruct rest; [congruence|]. cbn [length] in Heq. lia.
 Qed.
+
 
 
 (* ======================= part 11 ======================= *)
@@ -1966,11 +1958,11 @@ Proof.
   destruct ds as [|d0 ds']; [congruence|]. cbn [app]. rewrite parse_at_size by exact Hs.
   change (d0 :: ds' ++ c :: x) with ((d0 :: ds') ++ c :: x).
   rewrite (size_full _ (d0 :: ds') c x Hne Hhex ltac:(rewrite Hv; exact Hlt) Hlen Hc Hx1 Hx2).
-  rewrite app_length. cbn [length]. rewrite Nat.add_succ_r. rewrite parse_loop_eq. cbn [p_stage size_state].
-  rewrite meta_eq. unfold parse_strict_bws.
   assert (Hwsp : cs_WSP c = false).
   { destruct (cs_WSP c) eqn:E; [|reflexivity]. rewrite (wsp_sub relaxed c E) in Hws. discriminate. }
-  change (c :: x) with ([] ++ c :: x). rewrite (bws_run cs_WSP [] c x eq_refl Hwsp). cbn [app].
+  unfold parse_strict_bws. change (c :: x) with ([] ++ c :: x). rewrite (bws_run cs_WSP [] c x eq_refl Hwsp). cbn [app].
+  cbn [length]. rewrite parse_loop_eq. cbn [p_stage size_state].
+  rewrite meta_eq.
   rewrite exts_unfold. unfold parse_bws. change (c :: x) with ([] ++ c :: x). rewrite (bws_run _ [] c x eq_refl Hws). cbn [app].
   cbn [tok_skipChar]. replace (c =? 59) with false by lia. cbn [negb fst snd].
   rewrite skipRequired_crlf_cases. replace (c =? 13) with false by lia. reflexivity.
@@ -1991,69 +1983,6 @@ Proof.
   rewrite takeN_app_exact, dropN_app_exact. unfold chunk_end. rewrite skipRequired_crlf_cases.
   destruct (c0 =? 13) eqn:E0; [|reflexivity]. destruct (c1 =? 10) eqn:E1; [|reflexivity].
   exfalso. apply Hc. split; [apply N.eqb_eq; exact E0| apply N.eqb_eq; exact E1].
-Qed.
-
-(* ================= the finding: acceptance of `;name=value BWS CRLF` depends on segmentation ================= *)
-Definition finding_enc : bytes :=   (* "5;a=b \r\nhello\r\n0\r\n\r\n" *)
-  [53; 59; 97; 61; 98; 32; 13; 10; 104; 101; 108; 108; 111; 13; 10; 48; 13; 10; 13; 10].
-Definition finding_whole : list (bytes * N) := [(finding_enc, 100)].
-Definition finding_split : list (bytes * N) := [(takeN 6 finding_enc, 100); (dropN 6 finding_enc, 100)].
-
-Theorem ext_trailing_bws_refuted :
-  exists enc s_whole s_split,
-    segs s_whole = enc /\ segs s_split = enc /\
-    (forall m tail, message_ok m -> enc <> encode m ++ tail) /\       (* not in the grammar *)
-    r_status (run_chunked false s_whole) = RThrow EExtCrlf /\           (* rejected when read at once *)
-    r_status (run_chunked false s_split) = RDone /\                     (* accepted when a read ends after the BWS *)
-    r_status (run_chunked true s_split) = RDone.
-Proof.
-  exists finding_enc, finding_whole, finding_split.
-  assert (Hw : r_status (run_chunked false finding_whole) = RThrow EExtCrlf) by (vm_compute; reflexivity).
-  split; [vm_compute; reflexivity|]. split; [vm_compute; reflexivity|]. split.
-  - intros m tail Hm Heq.
-    destruct (dechunk_safe false m Hm tail finding_whole [] ltac:(rewrite app_nil_r; exact Heq)) as [(Hs & _)|(Hs & _)]; congruence.
-  - split; [exact Hw|]. split; vm_compute; reflexivity.
-Qed.
-
-(* the partial statement that does hold: read at once, BWS between an extension and CRLF is rejected *)
-Theorem reject_ext_trailing_bws_unsplit relaxed st name w x :
-  p_stage st = StExt -> token_ok name -> lenN name + 1 < npos -> w <> [] -> bws_ok w ->
-  meta_suffix relaxed st (59 :: name ++ w ++ 13 :: 10 :: x) (59 :: name ++ w ++ 13 :: 10 :: x) = SThrow EExtCrlf [].
-Proof.
-  intros Hs Hname Hnl Hwne Hw. destruct (ws_facts relaxed) as (F59 & F61 & F34 & F10 & F13).
-  assert (Hw59 : cs_WSP 59 = false) by (vm_compute; reflexivity).
-  rewrite meta_eq. unfold parse_strict_bws.
-  set (buf := 59 :: name ++ w ++ 13 :: 10 :: x).
-  assert (Hb : parse_bws_ cs_WSP buf = Ok buf) by (unfold buf; apply (bws_run cs_WSP [] 59 _ eq_refl Hw59)).
-  rewrite Hb.
-  (* Z = w ++ CRLF x is a legal follow-up of the name, so the extension is complete and valueless *)
-  set (Z := w ++ 13 :: 10 :: x).
-  assert (HZ : nxt Z) by (exists w, 13, (10 :: x); split; [reflexivity|]; split; [exact Hw|]; right; eauto).
-  set (e := {| x_w1 := []; x_w2 := []; x_name := name; x_val := VNone |}).
-  assert (He : one_ext relaxed (name ++ Z) = Some (Ok Z)).
-  { pose proof (one_ext_valid relaxed e Z) as H. cbn [x_w2 x_name x_val e enc_val app] in H. apply H; [|exact HZ].
-    unfold ext_ok, e. cbn [x_w1 x_w2 x_name x_val]. repeat split; try reflexivity; try apply Hname.
-    unfold enc_ext. cbn [x_w1 x_w2 x_name x_val enc_val app]. rewrite app_nil_r. cbn [lenN]. unfold npos in *. lia. }
-  rewrite exts_unfold. unfold parse_bws.
-  assert (Hb2 : parse_bws_ (ws_chars relaxed) buf = Ok buf) by (unfold buf; apply (bws_run _ [] 59 _ eq_refl F59)).
-  assert (Hsk : tok_skipChar 59 buf = (true, name ++ Z)) by reflexivity.
-  rewrite Hb2, Hsk. cbn [negb fst snd]. rewrite He.
-  (* next iteration: BWS, then CR/LF instead of ";" => the loop returns the position BEFORE the BWS *)
-  rewrite exts_unfold.
-  destruct (nxt_bws relaxed Z HZ) as (z & rz & Hbz & Hz61 & [[Hz59 (w' & HZw & Hw')]|[Hz59 _]]).
-  - exfalso. subst z. unfold Z in HZw.
-    (* w ++ CR.. = w' ++ ";".. with both w, w' BWS: impossible *)
-    revert w' HZw Hw'. clear -Hw. induction w as [|c w IH]; intros w' HZw Hw'.
-    + destruct w' as [|c' w'']; cbn [app] in HZw; [discriminate|]. injection HZw as <- _.
-      unfold bws_ok in Hw'. cbn [forallb] in Hw'. discriminate.
-    + destruct w' as [|c' w'']; cbn [app] in HZw.
-      * injection HZw as -> _. unfold bws_ok in Hw. cbn [forallb] in Hw. discriminate.
-      * injection HZw as <- HZw. unfold bws_ok in Hw, Hw'. cbn [forallb] in Hw, Hw'.
-        apply andb_prop in Hw as [_ Hw]. apply andb_prop in Hw' as [_ Hw']. eapply IH; eassumption.
-  - rewrite Hbz. cbn [tok_skipChar]. replace (z =? 59) with false by lia. cbn [negb fst snd].
-    rewrite skipRequired_crlf_cases. unfold Z. destruct w as [|c w']; [congruence|]. cbn [app].
-    unfold bws_ok in Hw. cbn [forallb] in Hw. apply andb_prop in Hw as [Hc _].
-    replace (c =? 13) with false; [reflexivity|]. unfold rfc_bws in Hc. lia.
 Qed.
 
 (* chunk-size that does not fit in 63 bits, whatever follows *)
